@@ -125,6 +125,8 @@ registry! {
     #[cfg(feature = "auto-collect")]
     h_policy::h_policy_adjust_full,
     #[cfg(feature = "auto-collect")]
+    h_policy::h_policy_adjust_mid,
+    #[cfg(feature = "auto-collect")]
     h_policy::h_policy_wiring,
     #[cfg(feature = "auto-collect")]
     h_policy::h_policy_wiring4,
